@@ -352,7 +352,11 @@ def check_post_passes(ctx: Ctx) -> None:
                 and isinstance(c.func.value, ast.Name)}
     joins = [n for n in flow.cfg.nodes if n.kind == "stmt" and isinstance(n.ast, ast.Assign) and isinstance(n.ast.value, ast.Call)
              and isinstance(n.ast.value.func, ast.Attribute) and n.ast.value.func.attr == "join" and len(n.ast.value.args) == 1
-             and isinstance(n.ast.value.args[0], ast.Name) and n.ast.value.args[0].id in appended]
+             and isinstance(n.ast.value.args[0], ast.Name) and (n.ast.value.args[0].id in appended or (
+                 # ... or of what a helper of the package produced (a generator of parts, a list built elsewhere)
+                 isinstance(n.ast.value.func.value, ast.Constant) and n.ast.value.func.value.value == "\n"
+                 and any(d.kind == "assign" and isinstance(d.value, ast.Call) and isinstance(prog.resolve_call(w, d.value), list)
+                         for d in flow.reaching(n, n.ast.value.args[0].id))))]
     fcs = [n for n, c in flow.all_calls() if call_name(prog, w, c) == fc_q]
     for j in joins:
         # (a return that applies the fix itself - `return outer(fix(result))` - passes it as well)
